@@ -84,7 +84,7 @@ func TestVerifC16Stream(t *testing.T) {
 	tp, cleanup := NewTestingProtocol(ctx, t, nil, nil)
 	defer cleanup()
 	svc := tp.Service.(*service)
-	n := vharness.Budget(60, 2500)
+	n := vharness.Budget(60, 1000)
 	if vharness.Budget(1, 1) == 0 {
 		n = 2
 	}
